@@ -32,7 +32,7 @@ func init() {
 // known:<class>, then it is reported as that known class provided the observed outputs are among those
 // the faithful model predicts for some iteration order (merge-filter-key-collision) or are equal after
 // masking hexadecimal numbers and equal to the model's output with the address masked (nested-pointer).
-// The classes repaired in the engine (hash-duplicate-key, key-string-collision, toplevel-address) are
+// The classes repaired in the engine (hash-duplicate-key, key-string-collision, toplevel-address, merge-filter-key-collision) are
 // ordinary cases now (streams regress:<class>): one predicted output, any variation is an oracle failure.
 // Correspondence: the (single) observable against the model's prediction, when the model covers the case.
 // Dates: twig.VerifConvertDateFormat against the model for every format string, and {{ d|date(f) }} with a
@@ -516,7 +516,7 @@ func runC03(cases string, res *Result) {
 		}
 	})
 	res.Hist["cases_with_map_of_3_or_more_entries"] = mapCases3
-	for _, cl := range []string{"hash-duplicate-key", "key-string-collision", "toplevel-address"} {
+	for _, cl := range []string{"hash-duplicate-key", "key-string-collision", "toplevel-address", "merge-filter-key-collision"} {
 		bad := 0
 		for _, f := range res.Findings {
 			if cm, ok := f.Case.(Case); ok && cm.str("stream") == "regress:"+cl {
